@@ -389,6 +389,111 @@ fn schedule_strategy() -> impl Strategy<Value = ScheduleCase> {
         })
 }
 
+// ---- references made through the node's operations, under task interleavings -----------------------------------------
+
+#[derive(Clone, Debug, Serialize, Deserialize)]
+pub enum RefOp {
+    Make,
+    /// monitor of a local process (succeeds)
+    MonitorLocal,
+    /// monitor of a process on a node whose connection is registered but cannot send (fails after the reference was made)
+    MonitorRemoteFailing,
+    /// monitor of a process on a node that is not connected at all (fails at once)
+    MonitorUnconnected,
+    UnlinkRemoteFailing,
+}
+
+#[derive(Clone, Debug, Serialize, Deserialize)]
+pub struct NodeRefCase {
+    pub tasks: Vec<Vec<RefOp>>,
+    pub schedule: Vec<u8>,
+    pub start: u32,
+}
+
+pub fn node_ref_oracle(c: &NodeRefCase) -> Verdict {
+    use crate::netbed::{clear_schedule, install_schedule, run_case, BedErr};
+    let c2 = c.clone();
+    let res = run_case(std::time::Duration::from_secs(30), move |_bed| async move {
+        let c = c2;
+        let node = Arc::new(Node::new("rust@127.0.0.1", "cookie"));
+        node.verif_set_reference_counter(c.start);
+        // a registered connection that was never connected: every operation on it fails with an invalid-state error
+        let cfg = edp_client::ConnectionConfig::new("rust@127.0.0.1", "peer@127.0.0.1", "cookie");
+        node.connections().insert("peer@127.0.0.1".to_string(), Arc::new(tokio::sync::Mutex::new(edp_client::Connection::new(cfg))));
+        let me = erltf::ExternalPid::new(Atom::new("rust@127.0.0.1"), 5, 0, 1);
+        let other = erltf::ExternalPid::new(Atom::new("rust@127.0.0.1"), 6, 0, 1);
+        let remote = erltf::ExternalPid::new(Atom::new("peer@127.0.0.1"), 7, 0, 1);
+        let nowhere = erltf::ExternalPid::new(Atom::new("nosuch@127.0.0.1"), 8, 0, 1);
+        let switched = install_schedule(c.schedule.clone());
+        let local = tokio::task::LocalSet::new();
+        let refs: Vec<Vec<Vec<u32>>> = local
+            .run_until(async {
+                let mut hs = vec![];
+                for ops in c.tasks.iter() {
+                    let (node, ops, me, other, remote, nowhere) = (node.clone(), ops.clone(), me.clone(), other.clone(), remote.clone(), nowhere.clone());
+                    hs.push(tokio::task::spawn_local(async move {
+                        let mut got: Vec<Vec<u32>> = vec![];
+                        for op in ops {
+                            match op {
+                                RefOp::Make => got.push(node.make_reference().ids.clone()),
+                                RefOp::MonitorLocal => {
+                                    if let Ok(r) = node.monitor(&me, &other).await {
+                                        got.push(r.ids.clone())
+                                    }
+                                }
+                                RefOp::MonitorRemoteFailing => {
+                                    if let Ok(r) = node.monitor(&me, &remote).await {
+                                        got.push(r.ids.clone())
+                                    }
+                                }
+                                RefOp::MonitorUnconnected => {
+                                    if let Ok(r) = node.monitor(&me, &nowhere).await {
+                                        got.push(r.ids.clone())
+                                    }
+                                }
+                                RefOp::UnlinkRemoteFailing => {
+                                    let _ = node.unlink(&me, &remote).await;
+                                }
+                            }
+                        }
+                        got
+                    }));
+                }
+                let mut all = vec![];
+                for h in hs {
+                    all.push(h.await.unwrap_or_default());
+                }
+                all
+            })
+            .await;
+        clear_schedule();
+        (refs, switched.get())
+    });
+    let (refs, switched) = match res {
+        Ok(x) => x,
+        Err(BedErr::RealTimeCap) => vfail!("node-hangs", "reference-making operations did not return"),
+        Err(BedErr::Setup(e)) => vfail!("harness:netbed", "{e}"),
+    };
+    let mut seen: HashMap<Vec<u32>, usize> = HashMap::new();
+    for (t, rs) in refs.iter().enumerate() {
+        for r in rs {
+            if let Some(t0) = seen.insert(r.clone(), t) {
+                vfail!("duplicate-reference", "reference words {:?} were handed out twice (tasks {t0} and {t}); counter started at {}; {:?}", r, c.start, c.tasks);
+            }
+        }
+    }
+    let n: usize = refs.iter().map(|r| r.len()).sum();
+    let failing = c.tasks.iter().flatten().any(|o| matches!(o, RefOp::MonitorRemoteFailing));
+    let info = if refs.len() >= 2 && n >= 3 && switched > 0 { CaseInfo::nt(fp(&format!("{:?}", c))) } else { CaseInfo::trivial() };
+    Verdict::Pass(info.class("node-level-references").class_if(failing, "failing-remote-monitor-interleaved"))
+}
+
+fn node_ref_strategy() -> impl Strategy<Value = NodeRefCase> {
+    let op = prop_oneof![4 => Just(RefOp::Make), 2 => Just(RefOp::MonitorLocal), 4 => Just(RefOp::MonitorRemoteFailing), 1 => Just(RefOp::MonitorUnconnected), 1 => Just(RefOp::UnlinkRemoteFailing)];
+    (prop::collection::vec(prop::collection::vec(op, 1..6), 2..4), prop::collection::vec(any::<u8>(), 0..24), prop_oneof![Just(0u32), Just(u32::MAX - 4), any::<u32>()])
+        .prop_map(|(tasks, schedule, start)| NodeRefCase { tasks, schedule, start })
+}
+
 pub fn run(run: &mut Run) {
     run.rule = "(a) exhaustive depth-first exploration of every schedule of 2..3 threads x 1..3 allocations (pids: from 7 counter positions incl. immediately before the wrap point and the serial's \
         32-bit wrap; references: counter at 0 and at 2^32-5..2^32-1) under a baton-passing scheduler that parks each thread at every instrumented step of allocate()/make_reference(); (b) random schedules \
@@ -454,6 +559,9 @@ pub fn run(run: &mut Run) {
     let rounds = run.tier.pick(400u32, 20_000);
     let stress = (0..rounds).map(|r| Stress { threads: 2 + (r % 7) as usize, per_thread: 40, back: 20 + (r % 60), start_serial: if r % 5 == 0 { (1u64 << 32) - 1 } else { r as u64 }, round: r });
     run.enumerate("os-thread-stress", stress, stress_oracle);
+    // (e) references made by the node's own operations (monitor, also when the request cannot be sent) interleaved with
+    // make_reference at the node's yield points
+    run.prop("node-references", node_ref_strategy, run.tier.pick(6_000, 300_000), node_ref_oracle);
 }
 
 pub fn replays() -> Vec<ReplayEntry> {
@@ -462,5 +570,6 @@ pub fn replays() -> Vec<ReplayEntry> {
         replay_entry("random-schedules", schedule_oracle),
         replay_entry("long-histories", history_oracle),
         replay_entry("os-thread-stress", stress_oracle),
+        replay_entry("node-references", node_ref_oracle),
     ]
 }
